@@ -44,6 +44,13 @@ def run(chk, repo, tier):
     for q in ('ConstraintNumber.__init__', 'ConstraintNumber.__call__'):
         _rv.check(chk, 'R03.5', repo, 'pgradd/RDkitWrapper/MolQuery.py', q,
                   '%s is unchanged from its reviewed reference' % q)
+    # the library entry point hands the structure to the scheme as given: a
+    # molecule object is not re-written on the way (a conversion to text
+    # there can drop what the object carries, e.g. double-bond stereo)
+    _rv.check(chk, 'R03.5', repo, 'pgradd/GroupAdd/Library.py',
+              'GroupLibrary.GetDescriptors',
+              'GroupLibrary.GetDescriptors passes the structure it is given, '
+              'object or text, unchanged to the scheme (reviewed reference)')
     R.message_concat_types(chk, repo, 'R03.2', [R.SCH, 'pgradd/Error.py'])
     # the name a group is looked up by must not depend on the order in which
     # the neighbours were met: peripherals in one total (plain sorted) order
